@@ -1,7 +1,9 @@
 """C03 — errors are reported if and only if the call failed; results are finite."""
 import math, re
 from vlib.runner import Check
-from vlib import core, apisweep
+from vlib import core
+from vlib import apisweep
+from vlib.core import unhx
 
 class C03(Check):
     id = 'C03'
@@ -56,6 +58,52 @@ class C03(Check):
                           'x structured energies/angles, each call made with an empty slot and with NULL; non-trivial = successful calls' % len(dist),
                      distinct_nontrivial=len(nontriv), negative_values_observed=neg, per_function_ok_err={k: v for k, v in sorted(dist.items())},
                      samples=[dict(call=ls[i], with_slot=a[i], without=b[i]) for i in (0, len(ls) // 2, len(ls) - 1)])
-        return 2 * len(ls), viol[:300], stats
+        on, ov, ost = self.object_api(ctx)
+        stats.update(ost)
+        stats['rule'] += '; plus the string / object API (formula parser, NIST and radionuclide lookups and lists, symbols, the 21 _CP functions and 3 refractive-index entry points, crystal lookups / copies / lists) ' \
+                         'on valid formulas, NIST names, garbage and NULL, at energies on both sides of every table end, each call with a slot and without'
+        return 2 * len(ls) + on, (viol + ov)[:300], stats
+
+    def object_api(self, ctx):
+        """the error contract on the functions that take strings / hand out objects (harness/c04heap.c)"""
+        import os
+        from props import c04 as C4
+        from vlib import cbuild
+        from vlib.core import REPO, VERIF
+        exe = ctx.sc.path('c04heap')
+        if not os.path.exists(exe):
+            cbuild.link(ctx.sc, ctx.objs, [os.path.join(VERIF, 'harness', 'c04heap.c')], exe, ctx.cfl + ['-I' + os.path.join(REPO, 'src')] + C4.WRAP)
+        singles = [g[0] for g in C4.heap_groups(ctx, ctx.sc.path('c03files')) if len(g) == 1 and not g[0].startswith('err ')]
+        groups = [[l] for l in singles] + [['N:' + l] for l in singles]
+        res = C4.run_heap(ctx, exe, groups)
+        def parse(a):
+            m = re.match(r'(-?\d+) d=(\S+) e=(\d) c=(-?\d+) m=(-?\d+) v=(\S+)', a)
+            return None if not m else dict(rc=int(m.group(1)), e=int(m.group(3)), c=int(m.group(4)), m=int(m.group(5)), v=m.group(6))
+        viol = []; ok = fail = 0; kinds = {}
+        n = len(singles)
+        for i, l in enumerate(singles):
+            (ga, da), (gb, db) = res.get(i, ([], 'not run')), res.get(n + i, ([], 'not run'))
+            if da is not None or db is not None or not ga or not gb:
+                viol.append(dict(key=l, got=str(da or db)[-200:], expected='a result (no abort)', what='call aborted')); continue
+            a, b = parse(ga[0]), parse(gb[0])
+            if a is None or b is None:
+                viol.append(dict(key=l, got=ga[0] + ' | ' + gb[0], expected='an answer', what='malformed answer')); continue
+            op = l.split(' ')[0]; kinds[op] = kinds.get(op, 0) + 1
+            num = a['v'].startswith('x')
+            val = unhx(a['v']) if num else None
+            if a['e']:
+                fail += 1
+                if a['rc'] != 0 or not (0 <= a['c'] <= 5) or a['m'] <= 0 or (num and val != 0):
+                    viol.append(dict(key=l, got=ga[0], expected='sentinel 0 / NULL with one error (code 0..5, non-empty message)', what='malformed failure'))
+            else:
+                ok += 1
+                if num and not math.isfinite(val):
+                    viol.append(dict(key=l, got=ga[0], expected='finite value', what='non-finite result without an error'))
+                positive = op in ('cp', 'nistn', 'nisti', 'radn', 'radi', 'z2s', 's2z', 'cget', 'ccopy', 'nistl', 'radl', 'clist', 'ri') or (op == 'cscp' and int(l.split(' ')[1]) < 13)
+                if positive and a['rc'] == 0:
+                    viol.append(dict(key=l, got=ga[0], expected='a non-NULL object / non-zero value, or an error', what='0 / NULL returned without an error'))
+            if b['e'] or b['rc'] != a['rc'] or b['v'] != a['v']:
+                viol.append(dict(key=l, got='%s | without slot: %s' % (ga[0], gb[0]), expected='identical result', what='passing no error slot changed the result'))
+        return 2 * n, viol, dict(object_api=dict(calls=2 * n, succeeded=ok, failed=fail, kinds=kinds))
 
 CHECK = C03()
